@@ -120,7 +120,13 @@ class Destinations(object):
         is_destination_error_message = (
             message.get("message_type", None) == DESTINATION_FAILURE
         )
-        message.update(self._globalFields)
+        if is_destination_error_message:
+            # (what a failure report says - reason, exception, message - is
+            # its own: global fields of the same name do not replace it)
+            for key, value in self._globalFields.items():
+                message.setdefault(key, value)
+        else:
+            message.update(self._globalFields)
         errors = []
         # (a copy: a destination may be removed, e.g. by itself, while the
         # message is being delivered, and removing from the list being
